@@ -493,6 +493,20 @@ Proof. intros v rest H. cbn [enc dec wf vconst] in *. apply val_eqb_eq in H. now
 Lemma vconst_len c : has_len (vconst c) 0.
 Proof. intros v _. reflexivity. Qed.
 
+(* a format whose decoded value must also pass a test (a parser that rejects, or a model that does not cover, the
+   other values: Err 7) *)
+Definition vcheck (p : val -> bool) (f : fmt val) : fmt val := {|
+  enc := enc f;
+  dec := fun l => '(v, r) <- dec f l ;; if p v then Ok (v, r) else Err 7;
+  wf := fun v => wf f v && p v |}.
+Lemma vcheck_ok p f : fmt_ok f -> fmt_ok (vcheck p f).
+Proof.
+  intros Hf v rest H. cbn [enc dec wf vcheck] in *. apply andb_true_iff in H. destruct H as [H1 H2].
+  rewrite (Hf v) by exact H1. cbn [bind]. now rewrite H2.
+Qed.
+Lemma vcheck_len p f n : has_len f n -> has_len (vcheck p f) n.
+Proof. intros Hf v H. cbn [enc wf vcheck] in *. apply andb_true_iff in H. now apply Hf. Qed.
+
 (* exactly k items of one format, as a tuple *)
 Definition vrep (k : N) (f : fmt val) : fmt val := {|
   enc := fun v => match v with VL l => rep_enc f l | _ => [] end;
@@ -695,6 +709,12 @@ Proof.
   - rewrite S2 by assumption. now apply H2.
 Qed.
 
+(* a length guard in front of the parser (`if len(body) < N { return err }` where it matters) *)
+Definition msg_guard (g : list N -> bool) (m : msg) : msg :=
+  {| m_enc := m_enc m; m_dec := fun l => if g l then m_dec m l else Err 1; m_wf := m_wf m |}.
+Lemma msg_guard_ok g m : msg_ok m -> (forall v, m_wf m v = true -> g (m_enc m v) = true) -> msg_ok (msg_guard g m).
+Proof. intros Hm Hg v H. cbn [m_enc m_dec m_wf msg_guard] in *. rewrite Hg by exact H. now apply Hm. Qed.
+
 (* the length of what a message with fixed-width fields and nothing in its tail encodes *)
 Lemma mk_msg_len fs t ws v : fields_len fs ws -> (forall acc vs, tl_enc (t acc) vs = []) ->
   m_wf (mk_msg fs t) v = true -> len (m_enc (mk_msg fs t) v) = nsum ws.
@@ -723,7 +743,7 @@ Ltac fmt_ok :=
     | apply msg_restrict_ok
     | apply vstruct_ok
     | apply vrep_ok
-    | apply vN_ok | apply vB_ok
+    | apply vN_ok | apply vB_ok | apply vcheck_ok
     | apply ube_ok | apply bytes_n_ok | apply str_pad_ok | apply str_pad2_ok | apply str_cut0_ok
     | apply bcd_time_ok | apply vconst_ok
     | apply tl_exact_ok | apply tl_ignore_ok | apply tl_rest_ok
@@ -735,7 +755,7 @@ Ltac fmt_len :=
     [ assumption
     | apply Forall2_nil
     | apply Forall2_cons; [intro; cbv beta|]
-    | apply vN_len | apply vB_len
+    | apply vN_len | apply vB_len | apply vcheck_len
     | apply ube_len | apply bytes_n_len | apply str_pad_len | apply str_pad2_len | apply str_cut0_len
     | apply bcd_time_len | apply vconst_len ].
 
